@@ -103,6 +103,20 @@ def corpus(ctx, quick):
             cases.append(("(%s, %s, %s) %s" % (a, b, a, w), {}))
     for q in FAILING:
         cases.append((q, {}))
+    # one occurrence of a pattern-taking word that sees several patterns (what it keeps of one must go when the next comes)
+    for q in ('"abc" ("a", "b", "c$") ?match', '("abc", "xyz") (|S| ("a", "z", ".", "a") (|P| S P ?match))', '["a", "b", "c"] elem (|P| "abc" P ?match)',
+              '"abc" ("a", "x") !match', '("abc", "xbz") (|S| ("a.c", "x.z") (|P| (S =~ P)))', '"a.c" ("a", ".", "c") ?find', '("ab", "cd", "ab") (|P| "abcd" P ?match) "x"'):
+        cases.append((q, {}))
+    # several result sets of one query open at once, pulled in turn, abandoned, the query destroyed first
+    c12 = importlib.import_module("checks.C12")
+    hrng = ctx.sub_rng("histories")
+    for q in MANY + ['(1, 2) (|A| [A, A 1 add] elem)', '{|X| X 1 add} (|F| (1, 2, 3) F F)', '(1, 0, 2) 10 swap div', '1 (1 add ?(5 ?lt))* (|A| (A, A))']:
+        for _ in range(2 if quick else 10):
+            # (in between: queries that compile, or are rejected by the grammar; rejections through exceptions leak - known finding)
+            toks, _info = c12.gen_history(hrng, 3, 2, hrng.choice([8, 14, 24]), ["", "7"], c12.OTHERS[:7] + ["(1", "1 2 )"])
+            if hrng.random() < 0.5:
+                toks.insert(hrng.randrange(2, len(toks) + 1), "k")
+            cases.append((q, {"m": "hist", "script": ",".join(toks)}))
     for q in MANY:
         for k in range(0, 7):
             cases.append((q, {"abandon": k}))
@@ -209,7 +223,7 @@ def run(ctx):
     common.report_broken_obligations(ctx, oblig, bool(ctx.violations))
     ctx.cov.update({
         "evaluations": evaluations, "distinct_nontrivial": len(cases),
-        "rule": "%d executions on the hooked build (shadow map of live operator states; event log of %d state areas replayed through the extracted lifecycle automaton) and on the ASan+UBSan build with a LeakSanitizer check after every case: generated programs (closures, loops, captures), names captured / shadowed / read across nested applied blocks, overloaded words fed operands of different types one after the other (core values, DWARF values), the same DIE with and without an import chain compared both ways round, %d programs failing at run time inside sub-expressions/closures/splices, result sets abandoned after 0-6 pulls, byte strings from C14's generator (rejected and accepted), DWARF/abbrev/location/symbol queries on sample binaries, complete and abandoned" % (len(cases), areas, len(FAILING)),
+        "rule": "%d executions on the hooked build (shadow map of live operator states; event log of %d state areas replayed through the extracted lifecycle automaton) and on the ASan+UBSan build with a LeakSanitizer check after every case: generated programs (closures, loops, captures), names captured / shadowed / read across nested applied blocks, overloaded words fed operands of different types one after the other (core values, DWARF values), the same DIE with and without an import chain compared both ways round, %d programs failing at run time inside sub-expressions/closures/splices, result sets abandoned after 0-6 pulls, histories with up to three result sets of one query open at once (pulled in turn, destroyed in any order, the query destroyed first), pattern-taking words that see several patterns at one place, byte strings from C14's generator (rejected and accepted), DWARF/abbrev/location/symbol queries on sample binaries, complete and abandoned" % (len(cases), areas, len(FAILING)),
         "samples": [], "lifecycle_verdicts": verdicts, "known_leaks_seen": leaks_known,
         "traces_validated_against_impl": areas, "violations_by_kind": viol,
         "not_a_theorem": "absence of memory errors / undefined behaviour / leaks in the C++ is sanitizer evidence on the executed corpus, not proved",
